@@ -8,6 +8,59 @@ from . import rules_exec_loops as L
 BUFREADER_FILE = "std::io::buffered::bufreader::BufReader<std::fs::File>"
 
 
+LAYER = re.compile(r"^([A-Za-z0-9_:]+)<(.*)>$")
+CLOSURE_AT = re.compile(r"\{closure@([^:]+):(\d+):(\d+): ")
+PASS_THROUGH = re.compile(r"^core::result::Result::(map_err|or_else)$|^core::convert::Into::into$|^<.* as core::convert::From<.*>>::from$")
+
+
+def _split_targs(sx):
+    out, depth, cur = [], 0, ""
+    for ch in sx:
+        if ch in "<({[":
+            depth += 1
+        elif ch in ">)}]":
+            depth -= 1
+        if ch == "," and depth == 0:
+            out.append(cur.strip())
+            cur = ""
+        else:
+            cur += ch
+    if cur.strip():
+        out.append(cur.strip())
+    return out
+
+
+def _line_source_problem(P, ity):
+    """None if the iterator type is io::Lines<BufReader<File>> under only Enumerate and Map layers whose closure passes the line through"""
+    t = ity
+    for _ in range(8):
+        if t == "std::io::Lines<" + BUFREADER_FILE + ">":
+            return None
+        m = LAYER.match(t)
+        if not m:
+            return "is not built on io::Lines<BufReader<File>>"
+        head, inner = m.group(1), _split_targs(m.group(2))
+        if head == "core::iter::adapters::enumerate::Enumerate" and len(inner) == 1:
+            t = inner[0]
+            continue
+        if head == "core::iter::adapters::map::Map" and len(inner) == 2:
+            cm = CLOSURE_AT.search(inner[1])
+            cl = None
+            if cm:
+                for g in P.fns.values():
+                    if g.kind == "Closure" and g.file == cm.group(1) and g.line == int(cm.group(2)) and g.raw["span"].get("col") == int(cm.group(3)):
+                        cl = g
+            if cl is None:
+                return "is mapped through a function the engine cannot resolve"
+            other = [short(c.name) for c in cl.calls if not PASS_THROUGH.search(short(c.name))]
+            if other:
+                return "is mapped through a closure that calls %s: the line may be altered before it reaches the query" % other[0]
+            t = inner[0]
+            continue
+        return "contains the adapter %s, which can drop, merge or reorder lines" % head
+    return "is nested too deeply to analyse"
+
+
 def _line_loop(R, f):
     loops = [l for l in L.input_loops(f) if L.is_line_loop(l) or re.search(L.ENUM_NEXT, short(l.next.name))]
     if len(loops) != 1 or not loops[0].ok:
@@ -31,13 +84,13 @@ def run(R):
             R.violation("C12.iter", short_name + "|no-line-loop",
                         "%s no longer has exactly one loop over io::Lines (or Enumerate<Lines>) of the input" % f.path, [f.loc()])
             continue
-        # ---- iterator types
-        ts = lp.next.func.get("res_targs") or lp.next.targs
-        elem = ts[0] if ts else ""
-        if BUFREADER_FILE not in elem or "dyn" in elem or "Chain" in elem:
-            R.violation("C12.iter", short_name + "|line-source", "lines are read from %s instead of Lines<BufReader<File>>" % elem, [lp.next.loc()])
+        # ---- iterator types: Lines<BufReader<File>>, optionally under Enumerate / a content-preserving Map (revealed opaque types included)
+        ity = (lp.next.targs or [""])[0]
+        bad_src = _line_source_problem(P, ity)
+        if bad_src:
+            R.violation("C12.iter", short_name + "|line-source", "the line iterator %s: %s" % (ity[:160], bad_src), [lp.next.loc()])
         else:
-            R.ok("C12.iter", short_name + "|line-source", elem[:80], lp.next.loc())
+            R.ok("C12.iter", short_name + "|line-source", ity[:120], lp.next.loc())
         ad = [c for c in f.calls if L.ADAPTERS.search(short(c.name))]
         if ad:
             for c in ad:
